@@ -146,6 +146,8 @@ def apply_step(p, step):
                 p.remove(p[step[1] % n])
         elif kind == "reverse":
             p.reverse()
+        elif kind == "clear":
+            p.clear()
         elif kind == "iadd":
             p += [make_op(s) for s in step[1]]
         elif kind == "helper":
